@@ -299,7 +299,8 @@ class CSSPageRule(cssrule.CSSRuleRules):
         super()._setCssText(cssText)
 
         tokenizer = self._tokenize2(cssText)
-        if self._type(self._nexttoken(tokenizer)) != self._prods.PAGE_SYM:
+        attoken = self._nexttoken(tokenizer)
+        if self._type(attoken) != self._prods.PAGE_SYM:
             self._log.error(
                 'CSSPageRule: No CSSPageRule found: %s' % self._valuestr(cssText),
                 error=xml.dom.InvalidModificationErr,
@@ -351,6 +352,8 @@ class CSSPageRule(cssrule.CSSRuleRules):
             # (read by the parser of the containing sheet or rule)
             self._accepted = ok
             if ok:
+                # literal keyword (preference defaultAtKeyword)
+                self._keyword = self._tokenvalue(attoken)
                 # replaced margin rules are detached
                 for r in self.cssRules:
                     r._parentRule = None
